@@ -412,8 +412,38 @@ fn bytes_strategy() -> BoxedStrategy<BytesCase> {
     (any::<u8>(), prop::collection::vec((any::<u8>(), any::<u16>(), any::<u64>()), 0..6)).prop_map(|(golden, muts)| BytesCase { golden, muts }).boxed()
 }
 
+/// raw input bytes (libFuzzer artifacts), hex encoded
+#[derive(Clone, Debug, Serialize, Deserialize)]
+pub struct RawCase {
+    pub hex: String,
+}
+
+pub fn to_hex(b: &[u8]) -> String {
+    b.iter().map(|x| format!("{:02x}", x)).collect()
+}
+
+pub fn from_hex(s: &str) -> Vec<u8> {
+    (0..s.len() / 2).filter_map(|i| u8::from_str_radix(&s[2 * i..2 * i + 2], 16).ok()).collect()
+}
+
+pub struct Raw;
+
+impl Check for Raw {
+    type Case = RawCase;
+    fn name(&self) -> &'static str {
+        "raw_bytes"
+    }
+    fn eval(&self, c: &RawCase) -> Verdict {
+        let bytes = from_hex(&c.hex);
+        match check_bytes(&bytes) {
+            Err((sig, msg)) => fail(sig, format!("{} — input: {}", msg, String::from_utf8_lossy(&bytes[..bytes.len().min(200)]))),
+            Ok((is_json, _)) => Verdict::Pass(Info::new(is_json, hash64(&bytes))),
+        }
+    }
+}
+
 pub fn checks() -> Vec<Box<dyn DynCheck>> {
-    vec![Box::new(RoundTrip), Box::new(Docs), Box::new(Bytes)]
+    vec![Box::new(RoundTrip), Box::new(Docs), Box::new(Bytes), Box::new(Raw)]
 }
 
 pub fn run(ctx: &Ctx) {
@@ -424,6 +454,23 @@ pub fn run(ctx: &Ctx) {
     ctx.run_random(&RoundTrip, t.pick(3_000, 40_000), move || rt_strategy(t));
     ctx.run_random(&Docs, t.pick(12_000, 200_000), move || doc_strategy(t));
     ctx.run_random(&Bytes, t.pick(40_000, 1_000_000), bytes_strategy);
+    if t == Tier::Thorough && !ctx.failed() {
+        if let Some(o) = crate::engine::fuzz::run_libfuzzer(ctx, "hll_json", 2_000_000, 4096) {
+            ctx.add_evaluations("libfuzzer_hll_json", o.executed, serde_json::json!({"engine": "libFuzzer", "target": "hll_json", "executed_units": o.executed, "corpus_seeded_from": "harness/fuzz/seeds/hll_json"}));
+            ctx.note("libfuzzer_hll_json", o.note.clone());
+            for a in &o.artifacts {
+                if let Ok(bytes) = std::fs::read(a) {
+                    let case = RawCase { hex: to_hex(&bytes) };
+                    match Raw.eval(&case) {
+                        Verdict::Fail { sig, msg } => {
+                            ctx.handle_fail("raw_bytes", &serde_json::to_value(&case).unwrap(), &sig, &format!("libFuzzer artifact {:?}: {}", a.file_name().unwrap(), msg), None);
+                        }
+                        Verdict::Pass(_) => ctx.inconclusive(format!("libFuzzer produced artifact {:?} but the oracle passes on it when replayed (timeout / OOM?)", a)),
+                    }
+                }
+            }
+        }
+    }
     ctx.require_class("documents", "accepted", 0.03);
     ctx.require_class("documents", "structurally_valid_all_fields", 0.4);
     ctx.require_class("byte_mutations", "json_but_rejected", 0.02);
